@@ -37,7 +37,7 @@ func (g *gen) planCustomOptions(f *fileCtx) {
 	}
 	g.repeat("custom-options", 0, 3, func(k int) {
 		co := &customOpt{target: pick(g, customTargets, "option-target"), num: int32(77000 + 10*f.idx + k),
-			kind: pick(g, []descriptorpb.FieldDescriptorProto_Type{descriptorpb.FieldDescriptorProto_TYPE_INT32, descriptorpb.FieldDescriptorProto_TYPE_BOOL, descriptorpb.FieldDescriptorProto_TYPE_STRING}, "option-kind")}
+			kind: pick(g, []descriptorpb.FieldDescriptorProto_Type{descriptorpb.FieldDescriptorProto_TYPE_INT32, descriptorpb.FieldDescriptorProto_TYPE_BOOL, descriptorpb.FieldDescriptorProto_TYPE_STRING, descriptorpb.FieldDescriptorProto_TYPE_MESSAGE}, "option-kind")}
 		f.opts = append(f.opts, co)
 	})
 }
@@ -50,6 +50,12 @@ func (g *gen) customOptionDecls(f *fileCtx) {
 		sc.take(name)
 		x := &fldp{Name: proto.String(name), Number: proto.Int32(co.num), Label: descriptorpb.FieldDescriptorProto_LABEL_OPTIONAL.Enum(),
 			Type: co.kind.Enum(), Extendee: proto.String(".google.protobuf." + co.target + "Options")}
+		if co.kind == descriptorpb.FieldDescriptorProto_TYPE_MESSAGE {
+			// a message-typed option: its payload type is a descriptor.proto message (the file imports
+			// descriptor.proto anyway); a generator that does not link the option sees the value as a
+			// dynamic message with several populated fields
+			x.TypeName = proto.String(".google.protobuf.FieldDescriptorProto")
+		}
 		if f.syntax == "proto3" && g.chance(3, "p3opt-ext") {
 			x.Proto3Optional = proto.Bool(true)
 		}
@@ -83,6 +89,32 @@ func customize[T proto.Message](g *gen, f *fileCtx, target string, opts T) T {
 	case descriptorpb.FieldDescriptorProto_TYPE_STRING:
 		b = protowire.AppendTag(b, protowire.Number(co.num), protowire.BytesType)
 		b = protowire.AppendString(b, pick(g, []string{"", "x", "hello world", "é"}, "option-string"))
+	case descriptorpb.FieldDescriptorProto_TYPE_MESSAGE:
+		payload := &descriptorpb.FieldDescriptorProto{Name: proto.String(pick(g, []string{"n", "payload", "é"}, "option-msg-name"))}
+		if g.chance(2, "option-msg-number") {
+			payload.Number = proto.Int32(pick(g, []int32{0, 1, -1, 42}, "option-msg-int"))
+		}
+		if g.chance(2, "option-msg-json") {
+			payload.JsonName = proto.String("j")
+		}
+		if g.chance(2, "option-msg-type") {
+			payload.Type = descriptorpb.FieldDescriptorProto_TYPE_BOOL.Enum()
+		}
+		if g.chance(2, "option-msg-default") {
+			payload.DefaultValue = proto.String("d")
+		}
+		if g.chance(2, "option-msg-oneof") {
+			payload.OneofIndex = proto.Int32(0)
+		}
+		if g.chance(3, "option-msg-options") {
+			payload.Options = &descriptorpb.FieldOptions{Deprecated: proto.Bool(true), Lazy: proto.Bool(false)}
+		}
+		pb, err := proto.MarshalOptions{Deterministic: true}.Marshal(payload)
+		if err != nil {
+			panic(err)
+		}
+		b = protowire.AppendTag(b, protowire.Number(co.num), protowire.BytesType)
+		b = protowire.AppendBytes(b, pb)
 	case descriptorpb.FieldDescriptorProto_TYPE_BOOL:
 		b = protowire.AppendTag(b, protowire.Number(co.num), protowire.VarintType)
 		b = protowire.AppendVarint(b, uint64(g.n(0, 1, "option-bool")))
